@@ -16,8 +16,8 @@ T = '_t._tcp.local.'
 def q_bytes(questions, known=(), tc=False, ident=0, auth=()):
     from zeroconf import DNSOutgoing, DNSQuestion
     o = DNSOutgoing(0, multicast=True, id_=ident)
-    for n, t, qu in questions:
-        o.add_question(DNSQuestion(n, t, 1 | (0x8000 if qu else 0)))
+    for n, t, qu, *cls in questions:
+        o.add_question(DNSQuestion(n, t, (cls[0] if cls else 1) | (0x8000 if qu else 0)))
     for r in known:
         o.add_answer_at_time(cachesim.mk(r), 0)
     for r in auth:
@@ -43,6 +43,11 @@ def datagram_pool():
         'qm2': q_bytes([(T, 12, False), ('x.' + T, 33, False)]),
         'qu': q_bytes([(T, 12, True)]),
         'qmix': q_bytes([(T, 12, False), ('x.' + T, 16, True)]),
+        'qany': q_bytes([(T, 12, False, 255)]),                 # QCLASS ANY, no unicast-response bit
+        'qany33': q_bytes([('x.' + T, 33, False, 255)]),
+        'qch': q_bytes([(T, 12, False, 3), ('x.' + T, 33, False)]),    # some other class without the top bit
+        'quany': q_bytes([(T, 12, True, 255)]),
+        'qusrv': q_bytes([('x.' + T, 33, True)]),              # QU for a 120 s record: multicast when a quarter of that has passed
         'tc1': q_bytes([(T, 12, False)], tc=True),
         'tc2': q_bytes([(T, 12, False)], known=[ptr], tc=True),
         'tcqu': q_bytes([(T, 12, True)], tc=True),
@@ -53,6 +58,10 @@ def datagram_pool():
         'big': bytes(8967),
         'empty': b'',
     }
+
+
+# which pool datagrams contain a question with the unicast-response bit: known from how they were built, not asked of the parser
+QU_NAMES = ('qu', 'qmix', 'tcqu', 'quany', 'qusrv')
 
 
 # ------------------------------------------------------------------------------------------------
@@ -125,7 +134,7 @@ def run_listener(seq, pool):
                     flags = ("{| lm_data := %s; lm_valid := %s; lm_is_query := %s; lm_truncated := %s; lm_has_qu := %s |}" % (
                         ctext(data) if len(data) <= 8966 else f"repeat 0 {len(data)}%nat",
                         cbool(bool(m and m.valid)), cbool(bool(m and m.is_query())), cbool(bool(m and m.truncated)),
-                        cbool(bool(m and m.has_qu_question()))))
+                        cbool(name in QU_NAMES)))
                     labels.append(f"LDgram {flags} {ctext(addr)} {cz(sim.now)} {cbool(he)} {cz(tcd)}")
                     cur.clear()
                     before_msg = lst.last_message
@@ -156,11 +165,18 @@ def run_listener(seq, pool):
 # (2) metamorphic oracle on the full stack
 # ------------------------------------------------------------------------------------------------
 
+# minimised failures, run first: the two shapes of the known finding (immediate multicast doubled; the one answer held back to the 500 ms bound)
+CORPUS = [
+    [(1300, 'qusrv', '10.0.0.7', 5353)],
+    [(0, 'tc1', '10.0.0.7', 40000), (130, 'qmix', '10.0.0.7', 40000)],
+]
+
+
 def gen_history(rng, pool):
     evs = []
     t = 0
     for _ in range(rng.randint(1, 7)):
-        name = rng.choice(['qm', 'qm', 'qm2', 'qu', 'qmix', 'tc1', 'tc2', 'resp', 'resp2', 'bad', 'respY', 'bye'])
+        name = rng.choice(['qm', 'qm', 'qm2', 'qu', 'qmix', 'qany', 'qany33', 'qch', 'quany', 'qusrv', 'tc1', 'tc2', 'resp', 'resp2', 'bad', 'respY', 'bye'])
         evs.append((t, name, rng.choice(['10.0.0.7', '10.0.0.8', 'fe80::7']), rng.choice([5353, 5353, 5353, 40000])))
         t += rng.choice([1, 30, 130, 450, 600, 1100, 1300, 5000])
     return evs
@@ -244,7 +260,7 @@ def oracle_history(evs, pool):
         return None, ()
     extra = [x for x in c2 if x not in c1 or c2.count(x) > c1.count(x)]
     missing = [x for x in c1 if x not in c2]
-    has_qu = any(n in ('qu', 'qmix', 'tcqu') for _, n, _, _ in evs)
+    has_qu = any(n in QU_NAMES for _, n, _, _ in evs)
     # a query containing a QU question may be answered by unicast twice
     extra_non_ucast = [x for x in extra if not (x[0] == 'send' and x[2] is not None and x[2][0] not in ('224.0.0.251', 'ff02::fb'))]
     if not missing and not extra_non_ucast and has_qu:
@@ -257,7 +273,7 @@ def oracle_history(evs, pool):
     if diffs:
         t_first = diffs[0][1][1]
         # (the second handling may put its answer into the protected queue: up to 1 s + 200 ms + jitter later)
-        if any(n in ('qu', 'qmix', 'tcqu') and 0 <= t_first - dt <= 1400 for dt, n, _, _ in evs):
+        if any(n in QU_NAMES and 0 <= t_first - dt <= 1400 for dt, n, _, _ in evs):
             tags = ('qu_double_multicast',)
     return (f"doubling every datagram changed the observable behaviour: extra {str(extra_non_ucast)[:500]} missing {str(missing)[:300]}"), tags
 
@@ -286,8 +302,8 @@ def run(ctx):
         for o in obs:
             ctx.hist('listener:' + {1: 'oversize', 2: 'duplicate', 3: 'invalid', 4: 'response', 5: 'no-registry', 6: 'deferred', 7: 'respond', 0: '?'}[o[0]])
     fails = []
-    for _ in range(120 if quick else 2500):
-        evs = gen_history(rng, pool)
+    for k in range(len(CORPUS) + (120 if quick else 2500)):
+        evs = CORPUS[k] if k < len(CORPUS) else gen_history(rng, pool)
         why, tags = oracle_history(evs, pool)
         if why:
             fails.append((evs, why, tags))
